@@ -3,9 +3,11 @@
 //!
 //! * `Ctx::step`: one LR move (reductions under a lookahead, then at most one shift).
 //! * `parse_tree`: a plain LR parse of an (edited) token list into a tree.
-//! * `ref_search`: exhaustive search over the documented edit moves (insert / delete / shift,
-//!   with the search's "reduction-only" move) by increasing cost, nodes merged by the same
-//!   equivalence the implementation uses, unfolded to explicit sequences under a cap.
+//! * `ref_search`: exhaustive search over the documented edit moves (insert a token, delete the
+//!   next lexeme, shift the next lexeme; reductions are part of the move they prepare) by
+//!   increasing cost, nodes merged by (stack, position, ends-in-delete, trailing shifts),
+//!   unfolded to explicit sequences under a cap. Every sequence it yields is, by construction,
+//!   what a plain LR parse of the edited input does.
 use std::cell::Cell;
 use std::collections::{BTreeMap, BTreeSet};
 
@@ -370,8 +372,13 @@ pub fn ref_search(c: &Ctx, ss: &mut Stacks, stack0: u32, la0: usize, caps: &Sear
             }
             let key = nodes[nid as usize].key;
             let la = key.la as usize;
+            // Success: three lexemes shifted in a row, or the remaining input is empty and is
+            // accepted once the reductions the end of input demands are done.
             let is_succ = key.nsh >= 3
-                || matches!(c.st.action(StIdx(ss.top(key.stack)), TIdx(c.la(la))), Action::Accept);
+                || (la == c.toks.len() && {
+                    let s = c.reduce_only(ss, key.stack, c.eof);
+                    matches!(c.st.action(StIdx(ss.top(s)), TIdx(c.eof)), Action::Accept)
+                });
             if is_succ {
                 succ.push(nid);
                 continue;
@@ -419,14 +426,14 @@ pub fn ref_search(c: &Ctx, ss: &mut Stacks, stack0: u32, la0: usize, caps: &Sear
                 let k = Key { stack: key.stack, la: key.la + 1, del: true, nsh: 0 };
                 add(&mut nodes, &mut buckets, &mut index, &mut work, &mut merged, cost + c.costs[c.toks[la] as usize] as u32, k, Some(Rp::Del));
             }
-            let r = c.step(ss, key.stack, c.la(la));
-            if r.stack != key.stack {
+            // Shift: the reductions the next lexeme demands, then the lexeme itself - a move only
+            // if the lexeme really is shifted (the documented move set has no "reduce only" move:
+            // reductions belong to the shift, insert or acceptance they prepare).
+            if la < c.toks.len() {
+                let r = c.step(ss, key.stack, c.la(la));
                 if r.shifted {
                     let k = Key { stack: r.stack, la: key.la + 1, del: false, nsh: (key.nsh + 1).min(3) };
                     add(&mut nodes, &mut buckets, &mut index, &mut work, &mut merged, cost, k, Some(Rp::Sh));
-                } else {
-                    let k = Key { stack: r.stack, la: key.la, del: key.del, nsh: key.nsh };
-                    add(&mut nodes, &mut buckets, &mut index, &mut work, &mut merged, cost, k, None);
                 }
             }
             if c.looped.get() {
